@@ -6,12 +6,24 @@
    [reports cfg s f code]  :=  validation returns (does not raise) and [code] is among the codes of its
    error-severity issues.  Published codes come from the table regenerated from error_messages.py
    (Gen/ValidationCodes.v); the HED-specification code of every rule is written here BY HAND ([spec_code]),
-   so an edited actual_code breaks the corresponding proof. *)
+   so an edited actual_code breaks the corresponding proof.
+
+   SCOPE, honestly: "the code as it is" = the CURRENT /repo (all fix commits listed under `fixed` in
+   known_findings.json are in it; the model follows 5df7886, 7597eca, 2492808, cbb8087, 3e47c8c).  The verdicts of the
+   resolution, unit / value-class and definition layers are fact INPUTS of the model ([tagfacts]); therefore the
+   theorems for unknown tag, extension-is-a-term, bad unit, bad value, undeclared / wrongly valued Def and altered
+   Def-expand are PROPAGATION theorems: "if the leaf layer's issue list for the tag contains kind k, the validator
+   skeleton reaches that check and the published code of k (= the hand-written spec code) is reported".  That the leaf
+   layer produces k for the right inputs is C03 / C11 / C09 and, at C01 level, the implementation-side oracle (tested).
+   Full content is proved for: the two-phase skeleton, all string-level rules, tag characters, placement, required /
+   unique, duplicate detection (sound + complete), temporal group shapes, empty groups, value-class acceptance on
+   per-class verdicts, and conforming => no error. *)
 From Coq Require Import String Ascii.
 From Coq Require Import List NArith Arith Bool.
 From HV Require Import Base.Res Base.Str Model.Parse Model.ValKinds Model.ValStr Model.Validate.
 From HV Require Import Gen.ValidationCodes Proofs.ValidateProofs Proofs.ValidateDups Proofs.ValidateTemporal
-  Proofs.ValidateMut Model.ValValue Proofs.ValValueProofs Proofs.C01Examples Proofs.C01ExamplesProofs.
+  Proofs.ValidateMut Model.ValValue Proofs.ValValueProofs Proofs.ValidateEmpty Proofs.C01Examples
+  Proofs.C01ExamplesProofs.
 Import ListNotations.
 
 Definition s2l (s : String.string) : str := map Ascii.N_of_ascii (String.list_ascii_of_string s).
@@ -70,10 +82,19 @@ Theorem C01_phase_reach : forall cfg f fl i,
 Proof. exact phase_reach. Qed.
 Print Assumptions C01_phase_reach.
 
-Theorem C01_full_phase_never_raises : forall cfg Q f,
-  Forall (wf_n Q) f -> exists fl, full_checks cfg f = Ok fl.
-Proof. exact full_checks_total. Qed.
+(* the full phase (required / unique / placement / duplicate / Duration / Onset checks) never raises, for ANY
+   annotation, empty groups included (/repo HEAD; the duplicate check is total since fix commit 3e47c8c) *)
+Theorem C01_full_phase_never_raises : forall cfg f, exists fl, full_checks cfg f = Ok fl.
+Proof. exact full_checks_total_all. Qed.
 Print Assumptions C01_full_phase_never_raises.
+
+(* RECORD of the repaired defect -- behaviour BEFORE fix commit 3e47c8c (dup_n_before_3e47c8c is not used by the
+   model of the current code): on "(),()" the duplicate check raised IndexError; the current model, like /repo HEAD,
+   reports the repeated group. *)
+Example C01_duplicate_check_raised_before_3e47c8c :
+  dup_n_before_3e47c8c (sorted_n (FGroup ex_empty2)) = Exn IndexError
+  /\ dup_n (sorted_n (FGroup ex_empty2)) = Ok [iss K_HED_TAG_REPEATED_GROUP].
+Proof. exact ex_empty_dups_before_3e47c8c. Qed.
 
 (* ------------------------------------------------------------------ conforming => no error *)
 (* string level, ALL forests: printing a forest whose tag texts are words over permitted characters without
@@ -92,10 +113,22 @@ Proof. exact basic_ok_no_error. Qed.
 Print Assumptions C01_basic_phase_no_error.
 
 (* FULL: a conforming annotation validates without raising and without any error-severity issue.
-   [ConformingFull] = [Conforming] (well-formed text, every tag individually rule-conforming, tag-group /
-   top-level-group tags correctly placed with at most one top-level-group tag per top-level group, required tags
-   present, unique tags at most once) + no two equal siblings in any group (equal = same case-folded, order-free
+   [ConformingFull] = [Conforming] + no two equal siblings in any group (equal = same case-folded, order-free
    canonical text) + correctly shaped Duration/Delay and Onset/Offset/Inset groups.
+   WHAT [Conforming] IS, precisely (Proofs/ValidateProofs.v tag_basic_ok / Conforming):
+   * declarative conditions of the statement's grammar: the tag text is a word (no delimiter, no outer blank) over
+     permitted characters without slash faults; groups are non-empty; the tag is resolved without resolution issue; it
+     is not a Definition; it is a basic tag, a takes-value tag or extension-allowed; no '#' unless placeholders are
+     allowed; no requireChild; tag-group / top-level-group tags placed correctly (at most one top-level-group tag per
+     top-level group); required prefixes present, unique prefixes at most once;
+   * conditions that are "the leaf validator of another layer is silent" (the leaf verdicts are fact INPUTS of this
+     model, see the header): [check_tag_invalid_chars cfg t = []] (given declaratively by C01_tag_chars_declarative
+     below), [units_dispatch cfg t] returns no error (unit / value-class layer, C11), [tf_def_contents t] returns no
+     error (definition layer, C09).  For these parts the theorem says "if the leaf check accepts, validate adds no
+     error of its own", not that the leaf check implements the HED rule;
+   * in [duration_group_ok] the disjunct "the group also holds an Onset/Offset/Inset tag" is the case in which the
+     Duration/Delay shape rule does not apply (Delay inside a temporal group is judged by the Onset rule); it mirrors
+     the implementation's `continue`.
    (The grammar is slightly narrower than the language the validator accepts: a Delay tag next to a second
    top-level-group tag in one group is not generated; see C01_nonvacuous_* for inhabitants.) *)
 Theorem C01_valid_no_error : forall cfg f,
@@ -112,6 +145,15 @@ Theorem C01_valid_no_error_partial : forall cfg f d,
   exists r, validate_forest cfg f = Ok r /\ errors r = [].
 Proof. exact valid_no_error_partial. Qed.
 Print Assumptions C01_valid_no_error_partial.
+
+(* the per-tag character condition of [Conforming], declaratively: no namespace or an alphabetic one, and every
+   character of the base tag is alphanumeric, one of "-_/" (and "#" when placeholders are allowed) or ':' *)
+Theorem C01_tag_chars_declarative : forall cfg t,
+  (tag_namespace (tf_org t) = [] \/ str_isalpha (removelast (tag_namespace (tf_org t))) = true) ->
+  forallb (base_char_ok cfg) (org_base t) = true ->
+  check_tag_invalid_chars cfg t = [].
+Proof. exact tag_chars_declarative. Qed.
+Print Assumptions C01_tag_chars_declarative.
 
 (* the duplicate check is silent exactly on the grammar condition "no two siblings with the same canonical text" *)
 Theorem C01_duplicate_check_sound : forall f,
@@ -347,6 +389,33 @@ Theorem C01_mutation_required_missing : forall cfg s f p,
   reports cfg s f (spec_code R_required_missing).
 Proof. exact rule_required_missing. Qed.
 Print Assumptions C01_mutation_required_missing.
+
+(* EMPTY GROUP "()" (the "empty delimiters" clause beside the comma forms above): an empty parenthesised group
+   anywhere in the annotation is reported with TAG_EMPTY.  First form: on any annotation whose basic phase is clean.
+   Second form: derived from per-tag conformity alone -- [wfg_n true]: the tags are individually conforming and groups
+   MAY be empty (the string-level theorem holds for such forests too: "()" passes the delimiter scan), so the
+   basic phase is clean and the full phase reports the group.  Several empty groups are covered as well; since fix
+   commit 3e47c8c repeated empty groups no longer make validation raise (Example below and
+   C01_duplicate_check_raised_before_3e47c8c). *)
+Theorem C01_mutation_empty_group : forall cfg s f,
+  basic_clean cfg s f -> In [] (sub_groups f) -> reports cfg s f (spec_code R_empty_tag).
+Proof. exact rule_empty_group. Qed.
+Print Assumptions C01_mutation_empty_group.
+
+Theorem C01_mutation_empty_group_from_tags : forall cfg f,
+  Forall (wfg_n true (tag_basic_ok cfg)) f -> In [] (sub_groups f) ->
+  reports cfg (fprint f) f (spec_code R_empty_tag).
+Proof. exact empty_group_reported. Qed.
+Print Assumptions C01_mutation_empty_group_from_tags.
+
+(* "Red,()" meets the premises; "(),()" and "((),(Red)),((Red),())" report TAG_EMPTY and the repeated group *)
+Example C01_nonvacuous_empty_groups :
+  basic_clean cfg830 (fprint ex_empty1) ex_empty1 /\ In [] (sub_groups ex_empty1)
+  /\ reports cfg830 (fprint ex_empty1) ex_empty1 (spec_code R_empty_tag)
+  /\ reports cfg830 (fprint ex_empty2) ex_empty2 (spec_code R_empty_tag)
+  /\ reports cfg830 (fprint ex_empty2) ex_empty2 (spec_code R_repeated)
+  /\ reports cfg830 (fprint ex_empty3) ex_empty3 (spec_code R_repeated).
+Proof. exact ex_empty_groups. Qed.
 
 (* repeated tag / repeated group, ALL forests, any depth: in any group of the annotation (the annotation itself
    included) two members with the same canonical text (case-folded short forms, members of groups in sorted order)
